@@ -4,7 +4,7 @@
    the leaf walk of ExtractLicenses visits every node once.  The allocator, regexp compilation and the table
    scans inside one matcher call (a constant given the shipped tables) are measured on the code, not proved. *)
 From Coq Require Import Lia.
-From Spdx Require Import Props.Shipped Model.Ticks Spec.Lex Proofs.ScanRef Proofs.Cost Proofs.ParseGrammar Proofs.ParseCost Model.ParseStack Model.ParseStackTicks Proofs.ParseStackCost.
+From Spdx Require Import Props.Shipped Model.Ticks Spec.Lex Proofs.ScanRef Proofs.Cost Proofs.ParseGrammar Proofs.ParseCost Model.ParseStack Model.ParseStackTicks Proofs.ParseStackCost Model.ScanTicks Proofs.ScanCost.
 Local Open Scope list_scope.
 
 Theorem C14_sizes e t : parse T0 e = Ok t -> tree_size t <= length e /\ leaf_count t <= length e.
@@ -50,6 +50,19 @@ Proof.
   pose proof (tokens_le_bytes T0 HT0 e ts H). lia.
 Qed.
 
+(* the scanner: its one super-linear step is the rebuild of the whole buffer whenever an X-or-later is rewritten to X+.
+   One token never makes the buffer longer (a rewrite removes nine bytes and inserts one), so all rebuilds of one
+   scan together copy at most |text| bytes per loop iteration: (|text|+1)^2 with the iterations themselves - quadratic,
+   never more (Model/ScanTicks.v counts the bytes of every rebuilt buffer along the control path of the scanner) *)
+Theorem C14_scanner_buffer_never_grows z t z' : ztoken T0 z = Ok (t, z') -> blen z' <= blen z.
+Proof. exact (ztoken_blen T0 z t z'). Qed.
+Theorem C14_scanner_rebuilds_quadratic s :
+  zscan_ticks T0 (S (length s)) {| zb := []; zr := s; zshift := 0 |} <= (length s + 1) * (length s + 1).
+Proof. exact (scan_ticks_quadratic T0 s). Qed.
+Example C14_scanner_example :
+  zscan_ticks T0 38 {| zb := []; zr := s2l "Apache-2.0-or-later AND MIT-or-later"; zshift := 0 |} = 6 + 28 + 20.   (* six loop iterations (id, +, AND, id, +, end) and two rebuilt buffers of 36-8 and 36-16 bytes *)
+Proof. vm_compute. reflexivity. Qed.
+
 (* the loops that are not structurally recursive run within their fuel: |text|+1 scanner iterations,
    recursion depth 3*|tokens|+3 in the parser (C03_scanner, C03_parser) *)
 
@@ -59,5 +72,5 @@ Example C14_example :
                       [NLic (s2l "Apache-2.0") false None]) = 4.
 Proof. vm_compute. reflexivity. Qed.
 
-Definition C14_theorems := (@C14_sizes, @C14_evaluator_linear, @C14_leaf_walk_linear, @C14_parser_linear, @C14_parser_as_written_linear).
+Definition C14_theorems := (@C14_sizes, @C14_evaluator_linear, @C14_leaf_walk_linear, @C14_parser_linear, @C14_parser_as_written_linear, @C14_scanner_buffer_never_grows, @C14_scanner_rebuilds_quadratic).
 Redirect "assumptions/C14" Print Assumptions C14_theorems.
